@@ -677,6 +677,7 @@ def run(tier):
                      "so `go depth N` runs iterations 1..=N; (2) exactly one info line per iteration, printed with the loop variable, only on the edge where both abort tests "
                      "are false, at most once per range advance, after that iteration's search: depths are reported in order without gaps or repeats and only when completed; "
                      "(3) every PV move passed is_legal_move on the position it is played in and the scratch board is restored; (4) score and best move are written together. "
-                     "Not decided: UCI syntax of the formatted text, correctness of the mate distance."),
+                     "(5) the text of a move (Display = to_notation, 64 square names, promotion letters) and every shape of the info line against the UCI grammar, by per-case propagation; (6) a logged line is "
+                     "one `{}\\n` print. Not decided: correctness of the mate distance."),
         assumptions=["RangeInclusive::new(1, n) yields 1,2,..,n in order", "Board::is_legal_move is exact (C01)"],
         tier=tier)
